@@ -4,12 +4,33 @@ import json, os, re, subprocess, sys, time, hashlib, signal
 from concurrent.futures import ThreadPoolExecutor
 
 ROOT = os.path.dirname(os.path.dirname(os.path.abspath(__file__)))
-HARNESS = os.path.join(ROOT, 'harness')
-TARGET = os.path.join(ROOT, 'target')
-EVID = os.path.join(ROOT, 'evidence')
-REPLAYS = os.path.join(ROOT, 'replays')
 KNOWN = os.path.join(ROOT, 'known_findings.jsonl')
-NCPU = os.cpu_count() or 4
+NCPU = int(os.environ.get('VERIF_JOBS', os.cpu_count() or 4))
+# Normal operation: everything lives in /verif and the crate under test is /repo.
+# Shadow operation (used only by lib/seedeval.py to evaluate seeded changes in scratch worktrees without touching
+# /repo or /verif/evidence): VERIF_REPO names the crate copy, VERIF_SHADOW a scratch directory that receives a copy of
+# the harness (with its path dependency rewritten), the build output, the evidence and the replays.
+REPO = os.environ.get('VERIF_REPO', '/repo')
+SHADOW = os.environ.get('VERIF_SHADOW')
+BASE = SHADOW if SHADOW else ROOT
+HARNESS = os.path.join(BASE, 'harness')
+TARGET = os.path.join(BASE, 'target')
+EVID = os.path.join(BASE, 'evidence')
+REPLAYS = os.path.join(BASE, 'replays')
+
+
+def prepare_shadow():
+    if not SHADOW:
+        return
+    os.makedirs(SHADOW, exist_ok=True)
+    subprocess.run(['rsync', '-a', '--delete', '--exclude', 'target', os.path.join(ROOT, 'harness') + '/', HARNESS + '/'], check=True)
+    for dirpath, _, files in os.walk(HARNESS):
+        for f in files:
+            if f == 'Cargo.toml':
+                pth = os.path.join(dirpath, f)
+                t = open(pth).read()
+                if '"/repo"' in t:
+                    open(pth, 'w').write(t.replace('"/repo"', '"%s"' % REPO))
 
 
 class Machinery(Exception):
@@ -220,6 +241,7 @@ def main(argv):
         seed = 0
     spec = PROPS[pid]
     t0 = time.time()
+    prepare_shadow()
     try:
         if replay:
             return do_replay(pid, spec, replay)
